@@ -11,7 +11,8 @@
 From Coq Require Import List ZArith NArith Bool.
 From BBS Require Import Common.Sx Buffer.Source Buffer.Validate Buffer.Convert Buffer.ErrHandler
   Buffer.StreamProofs Buffer.ValidateProofs Buffer.ErrHandlerProofs Buffer.ClosedOnceProofs
-  Buffer.ErrHandlerStackProofs Buffer.StackRuleProofs Run.R09 Run.R16 Run.R16Proofs.
+  Buffer.ErrHandlerStackProofs Buffer.StackRuleProofs Buffer.ValidateReaderProofs Buffer.ConvertProofs
+  Buffer.EHFullCarry Buffer.EHFullReader Buffer.EHFullMethods Buffer.EHFullStack Buffer.EHFullPrefix Buffer.EHFullExact Buffer.EHFullStackExact Buffer.EHFullStacking Buffer.EHFullCompleted Buffer.EHFullPartial Buffer.EHFullTrace Buffer.EHFullRuns Buffer.EHFullRetry Buffer.EHFullMon Buffer.EHFullMon3 Buffer.EHFullMonS Buffer.EHFullMonR Run.R09 Run.R16 Run.R16Proofs.
 Import ListNotations.
 Open Scope N_scope.
 
@@ -28,20 +29,299 @@ Theorem stitched_output_and_each_io_error_offered_once : forall ifuel max fuel r
 Proof. exact ehc_stitched. Qed.
 Print Assumptions stitched_output_and_each_io_error_offered_once.
 
-(** No duplicated and no skipped range: if the original and all replacement
-    buffers carry the same object [C] (sources may fail or end anywhere), a
-    stitched stream started at offset [k] that reaches io.EOF is exactly C[k..].
-    Full statement: for every buffer kind.  Proved for chunk-reader backed CAS
-    buffers, validated byte slices and error buffers ([carries]); reader-backed
-    CAS buffers (io.CopyN/io.ReadFull underneath) are covered by the
-    correspondence check only. *)
-Theorem no_dup_no_skip_partial : forall ifuel max C cur k ans out e offered,
+(** No duplicated and no skipped range, at full strength.
+
+    [carries_full C b] (Buffer/EHFullCarry.v): the buffer [b] carries the object
+    [C] — for EVERY buffer kind of the model:
+    - chunk-reader backed CAS buffer, and reader backed CAS buffer whose reader
+      reports EOF / errors on a call of their own: the chunks before the first
+      event that is not a chunk are a prefix of [C], all of [C] if that event is
+      io.EOF (the source may fail or end anywhere; what follows is never read);
+    - reader backed CAS buffer whose reader hands out EOF / an error TOGETHER
+      with data ([rcar]): every chunk of the script is the next piece of [C] and
+      io.EOF comes only when all of [C] has been handed out — io.ReadFull and
+      io.CopyN(io.Discard) drop an error that arrives with the last byte they
+      asked for, and the next read continues with what follows it in the script
+      (see [content_carrier_insufficient_for_attaching_readers] below);
+    - validated byte slice: it is [C]; error buffer: always.
+    If the original and all replacement buffers carry [C], a stitched stream
+    started at offset [k] that reaches io.EOF is exactly C[k..] — wherever the
+    failures occur, whatever the chunkings, for replacement buffers that fail
+    again, cannot be opened at the delivered offset or are in an error state,
+    for ANY fuel (running out of fuel is just another error). *)
+Theorem no_dup_no_skip : forall ifuel max C cur k ans out e offered,
   stitched ifuel max cur k ans out e offered -> e = EEof ->
-  forall b, cur = ucr_open ifuel b k -> carries C b ->
-  Forall (fun a => match a with Replace b' => carries C b' | Fail _ => True end) ans ->
-  ~ In EFuel offered -> k <= lenN C -> out = dropN k C.
-Proof. exact stitched_no_dup_no_skip. Qed.
-Print Assumptions no_dup_no_skip_partial.
+  forall b, cur = ucr_open ifuel b k -> carries_full C b ->
+  Forall (ans_carries C) ans -> k <= lenN C -> out = dropN k C.
+Proof. exact stitched_no_dup_no_skip_full. Qed.
+Print Assumptions no_dup_no_skip.
+
+(** ... and whatever the outcome (io.EOF or the handler's error), what has been
+    handed out is a prefix of C[k..]: nothing duplicated, skipped or foreign. *)
+Theorem delivered_is_prefix : forall ifuel max C cur k ans out e offered,
+  stitched ifuel max cur k ans out e offered ->
+  forall b, cur = ucr_open ifuel b k -> carries_full C b ->
+  Forall (ans_carries C) ans -> k <= lenN C -> exists rest, dropN k C = out ++ rest.
+Proof. exact stitched_prefix_full. Qed.
+Print Assumptions delivered_is_prefix.
+
+(** The earlier partial form ([carries]: no reader-backed buffers, no fuel
+    exhaustion) is an instance. *)
+Theorem carries_is_carries_full : forall C b, carries C b -> carries_full C b.
+Proof. exact carries_carries_full. Qed.
+Print Assumptions carries_is_carries_full.
+
+(** On the scripts the harness generates for readers that attach EOF to data
+    (chunks and optionally one final Eof event) [rcar] is no more than the
+    notion used for the other stream-backed buffers. *)
+Theorem carrier_notions_agree_on_clean_scripts : forall evs C,
+  clean_script evs -> ccar C evs -> rcar C evs.
+Proof. exact clean_ccar_rcar. Qed.
+Print Assumptions carrier_notions_agree_on_clean_scripts.
+
+(** * The [ToReader] path: errorHandlingReader.
+    [rstitched fuel cur k answers out e offered] (Buffer/EHFullReader.v) is
+    [stitched] for io.Readers: the consumer reads with arbitrary buffer sizes
+    ([rdrains]), and the data that comes together with the error that ends a
+    piece belongs to the piece (it is handed to the consumer, the replacement is
+    opened after it).  The stream of the error-handling reader, read to its end
+    with any buffer sizes, is the stitched stream; the handler's log grows by
+    exactly the I/O errors that ended the pieces, once each and in order; the
+    delivered offset is the number of bytes handed out. *)
+Theorem reader_stitched_output_and_each_io_error_offered_once : forall fuel r out e r',
+  rdrains (ehr_read fuel) r out e r' ->
+  exists offered,
+    rstitched fuel (er_cur r) (er_off r) (h_answers (er_h r)) out e offered /\
+    h_log (er_h r') = h_log (er_h r) ++ map HOnError offered /\
+    er_off r' = er_off r + lenN out.
+Proof. exact ehr_stitched. Qed.
+Print Assumptions reader_stitched_output_and_each_io_error_offered_once.
+
+Theorem no_dup_no_skip_reader : forall fuel C cur k ans out e offered,
+  rstitched fuel cur k ans out e offered -> e = EEof ->
+  forall b, cur = urd_open fuel b k -> carries_full C b ->
+  Forall (ans_carries C) ans -> k <= lenN C -> out = dropN k C.
+Proof. exact rstitched_no_dup_no_skip. Qed.
+Print Assumptions no_dup_no_skip_reader.
+
+Theorem delivered_is_prefix_reader : forall fuel C cur k ans out e offered,
+  rstitched fuel cur k ans out e offered ->
+  forall b, cur = urd_open fuel b k -> carries_full C b ->
+  Forall (ans_carries C) ans -> k <= lenN C -> exists rest, dropN k C = out ++ rest.
+Proof. exact rstitched_prefix. Qed.
+Print Assumptions delivered_is_prefix_reader.
+
+Theorem handler_error_is_result_reader : forall fuel cur k ans out e offered,
+  rstitched fuel cur k ans out e offered ->
+  e = EEof \/
+  exists c pre t, e = ECode c /\ offered = pre ++ [t] /\
+                  fst (on_error (mkHst (skipn (length pre) ans) []) t) = Fail c.
+Proof. exact rstitched_result. Qed.
+Print Assumptions handler_error_is_result_reader.
+
+(** The validating reader above the error-handling reader completes only if
+    the stitched stream has the digest's size and hash.  (Proved for the
+    validating reader over ANY io.Reader that never returns
+    io.ErrUnexpectedEOF itself: the validated stream that reaches io.EOF is what
+    the reader underneath delivered up to its own io.EOF.) *)
+Theorem still_validated_reader : forall H cfg fuel b h out st',
+  rdrains (ehrv_read H cfg fuel) (vinit cfg (ehr_init fuel b h)) out EEof st' ->
+  lenN out = g_size cfg /\ g_hash cfg = H out /\
+  exists offered, rstitched fuel (urd_open fuel b 0) 0 (h_answers h) out EEof offered.
+Proof. exact ehr_validated_stitched. Qed.
+Print Assumptions still_validated_reader.
+
+(** * The stitched stream in closed form: the monitor's specification function.
+    For well-formed buffers ([wf_buf]: a reader that attaches EOF to data has a
+    script of chunks and at most one final Eof event — the scripts the harness
+    generates) and as long as no underlying reader runs out of fuel, what one
+    buffer delivers from offset k is exactly [piece_of b k] and the stitched
+    stream is exactly [stitch b k answers] (Run/R16.v, the function the monitor
+    evaluates on implementation observations) — on the chunk-reader path and on
+    the io.Reader path, for every buffer kind. *)
+Theorem stitched_stream_is_the_specification : forall ifuel max cur k ans out e offered,
+  stitched ifuel max cur k ans out e offered ->
+  forall b, cur = ucr_open ifuel b k -> wf_buf b -> Forall wf_ans ans ->
+  ~ In EFuel offered -> stitch b k ans = (out, e, offered).
+Proof. exact stitched_is_stitch. Qed.
+Print Assumptions stitched_stream_is_the_specification.
+
+Theorem stitched_reader_stream_is_the_specification : forall fuel cur k ans out e offered,
+  rstitched fuel cur k ans out e offered ->
+  forall b, cur = urd_open fuel b k -> wf_buf b -> Forall wf_ans ans ->
+  ~ In EFuel offered -> stitch b k ans = (out, e, offered).
+Proof. exact rstitched_is_stitch. Qed.
+Print Assumptions stitched_reader_stream_is_the_specification.
+
+(** ... so the streams of both error-handling readers, read to their end, are
+    [stitch] of the buffer and the handler's script, and the handler's log is
+    the list of errors [stitch] says are offered. *)
+Theorem error_handling_chunk_reader_stream : forall ifuel fuel max b h out e r',
+  drains (ehc_read ifuel fuel max) (ehc_init ifuel b h) out e r' ->
+  wf_buf b -> Forall wf_ans (h_answers h) ->
+  e <> EFuel -> ~ In (HOnError EFuel) (h_log (ec_h r')) ->
+  exists offered, stitch b 0 (h_answers h) = (out, e, offered) /\
+                  h_log (ec_h r') = h_log h ++ map HOnError offered.
+Proof. exact ehc_stream_is_stitch. Qed.
+Print Assumptions error_handling_chunk_reader_stream.
+
+Theorem error_handling_reader_stream : forall fuel b h out e r',
+  rdrains (ehr_read fuel) (ehr_init fuel b h) out e r' ->
+  wf_buf b -> Forall wf_ans (h_answers h) ->
+  ~ In (HOnError EFuel) (h_log (er_h r')) ->
+  exists offered, stitch b 0 (h_answers h) = (out, e, offered) /\
+                  h_log (er_h r') = h_log h ++ map HOnError offered.
+Proof. exact ehr_stream_is_stitch. Qed.
+Print Assumptions error_handling_reader_stream.
+
+(** * Stacks in closed form: the FLATTENED model of nested error-handling
+    readers ([sch_read] / [shr_read]: one plain reader below the active levels,
+    [escalate] passes an error upwards, a replacing level finishes the levels
+    below it) IS the LEVEL-WISE specification [stitch_stack] (Run/R16.v) the
+    monitor evaluates: level l+1 takes the whole stream of level l as its base
+    and consults its own script when that stream fails.  [w]: the world after
+    the handlers have been applied ([w_act w]: the active levels, innermost
+    first, any number >= 1); [oel h]: the OnError arguments handler [h] has
+    received; the streams, the final error and EVERY level's OnError log are
+    those of [stitch_stack] ([zipo]: each active level's log grows by its list
+    of offers).  Well-formed buffers, no fuel exhaustion, any depth. *)
+Theorem stack_chunk_stream_is_the_level_wise_specification : forall ifuel fuel max b w out e r',
+  drains (sch_read ifuel fuel max) (sch_init ifuel b w) out e r' ->
+  wf_buf b -> hs_wf (w_act w) -> w_act w <> [] ->
+  e <> EFuel -> Forall (fun h => ~ In EFuel (oel h)) (lv (sc_w r')) ->
+  exists offss,
+    (let '(p, t) := piece_of b 0 in stitch_stack p t (map h_answers (w_act w))) = (out, e, offss) /\
+    oews (sc_w r') = map oel (w_dn w) ++ zipo (map oel (w_act w)) offss /\
+    length offss = length (w_act w).
+Proof. exact stack_chunk_stream_is_stitch_stack. Qed.
+Print Assumptions stack_chunk_stream_is_the_level_wise_specification.
+
+Theorem stack_reader_stream_is_the_level_wise_specification : forall fuel b w out e r',
+  rdrains (shr_read fuel) (shr_init fuel b w) out e r' ->
+  wf_buf b -> hs_wf (w_act w) -> w_act w <> [] ->
+  e <> EFuel -> Forall (fun h => ~ In EFuel (oel h)) (lv (sr_w r')) ->
+  exists offss,
+    (let '(p, t) := piece_of b 0 in stitch_stack p t (map h_answers (w_act w))) = (out, e, offss) /\
+    oews (sr_w r') = map oel (w_dn w) ++ zipo (map oel (w_act w)) offss /\
+    length offss = length (w_act w).
+Proof. exact stack_reader_stream_is_stitch_stack. Qed.
+Print Assumptions stack_reader_stream_is_the_level_wise_specification.
+
+(** ... and the WHOLE run of a stack, from the original buffer [b0] and the
+    scripts [anss] of all handlers (any number, innermost first): applying the
+    handlers — WithErrorHandler on a buffer in a known state consults the
+    handler at once, possibly several times, and may finish levels before any
+    byte is read — is part of [stitch_stack] too ([stacked_spec],
+    Buffer/EHFullStacking.v).  The stream of the nested readers, its final
+    error and EVERY level's list of OnError arguments at the end ([oews]) are
+    exactly [stitch_stack (piece_of b0 0) anss]. *)
+Theorem whole_stack_chunk_stream_is_the_specification : forall ifuel fuel max b0 anss b w out e r',
+  stack_handlers b0 (mkW [] [] []) (map (fun a => mkHst a []) anss) = (b, w) -> w_act w <> [] ->
+  drains (sch_read ifuel fuel max) (sch_init ifuel b w) out e r' ->
+  wf_case b0 anss -> e <> EFuel -> Forall (fun h => ~ In EFuel (oel h)) (lv (sc_w r')) ->
+  (let '(p0, t0) := piece_of b0 0 in stitch_stack p0 t0 anss) = (out, e, oews (sc_w r')).
+Proof. exact whole_stack_chunk_stream. Qed.
+Print Assumptions whole_stack_chunk_stream_is_the_specification.
+
+Theorem whole_stack_reader_stream_is_the_specification : forall fuel b0 anss b w out e r',
+  stack_handlers b0 (mkW [] [] []) (map (fun a => mkHst a []) anss) = (b, w) -> w_act w <> [] ->
+  rdrains (shr_read fuel) (shr_init fuel b w) out e r' ->
+  wf_case b0 anss -> e <> EFuel -> Forall (fun h => ~ In EFuel (oel h)) (lv (sr_w r')) ->
+  (let '(p0, t0) := piece_of b0 0 in stitch_stack p0 t0 anss) = (out, e, oews (sr_w r')).
+Proof. exact whole_stack_reader_stream. Qed.
+Print Assumptions whole_stack_reader_stream_is_the_specification.
+
+(** Runs that stop early (a validating reader stops reading as soon as it
+    knows the stream is too long): whatever has been pulled out of the nested
+    readers is a PREFIX of the specification's stream, and every level's OnError
+    arguments so far are its earlier ones followed by a prefix ([lpre]) of the
+    offers the specification lists for it — at any offset, also for replacement
+    buffers opened beyond their end.  (Buffer/EHFullPartial.v) *)
+Theorem stack_chunk_stream_pulled_is_prefix_of_the_specification : forall ifuel fuel max b w out r',
+  pulls (sch_read ifuel fuel max) (sch_init ifuel b w) out r' ->
+  wf_buf b -> hs_wf (w_act w) -> w_act w <> [] ->
+  Forall (fun h => ~ In EFuel (oel h)) (lv (sc_w r')) ->
+  exists rest e offss qss,
+    (let '(p, t) := piece_of b 0 in stitch_stack p t (map h_answers (w_act w))) = (out ++ rest, e, offss) /\
+    oews (sc_w r') = map oel (w_dn w) ++ zipo (map oel (w_act w)) qss /\ Forall2 lpre qss offss.
+Proof. exact stack_chunk_pulled_is_prefix. Qed.
+Print Assumptions stack_chunk_stream_pulled_is_prefix_of_the_specification.
+
+Theorem stack_reader_stream_pulled_is_prefix_of_the_specification : forall fuel b w out r',
+  rpulls (shr_read fuel) (shr_init fuel b w) out r' ->
+  wf_buf b -> hs_wf (w_act w) -> w_act w <> [] ->
+  Forall (fun h => ~ In EFuel (oel h)) (lv (sr_w r')) ->
+  exists rest e offss qss,
+    (let '(p, t) := piece_of b 0 in stitch_stack p t (map h_answers (w_act w))) = (out ++ rest, e, offss) /\
+    oews (sr_w r') = map oel (w_dn w) ++ zipo (map oel (w_act w)) qss /\ Forall2 lpre qss offss.
+Proof. exact stack_reader_pulled_is_prefix. Qed.
+Print Assumptions stack_reader_stream_pulled_is_prefix_of_the_specification.
+
+(** At the level of the model's outcome: if a streaming method (IntoWriter,
+    ToChunkReader at any offset / chunk size, ToReader with any read sizes) on a
+    stack of at least one handler COMPLETES, then the stitched stream [st] of
+    the specification ends with io.EOF, the consumer holds exactly the expected
+    slice of [st], every handler's OnError arguments ([oell] of its log) are
+    exactly the offers the specification lists, and [st] has the digest's size
+    and hash (for a byte slice that was never streamed: provided the byte
+    slices of the case hold valid content — they are trusted by the code).
+    This is what monitor clauses 3 and 4 demand of a completed run.
+    Hypotheses: well-formed buffers, no fuel exhaustion offered to a handler. *)
+Theorem completed_streaming_run_is_the_specification : forall H cfg fuel b0 anss m,
+  streaming m -> anss <> [] ->
+  completed m (y_err (run_stack H cfg fuel b0 anss m)) = true ->
+  wf_case b0 anss -> no_fuel_offered (y_logs (run_stack H cfg fuel b0 anss m)) ->
+  exists st,
+    (let '(p0, t0) := piece_of b0 0 in stitch_stack p0 t0 anss)
+      = (st, EEof, map oell (y_logs (run_stack H cfg fuel b0 anss m))) /\
+    y_data (run_stack H cfg fuel b0 anss m) = expected_slice m st /\
+    (bytes_trusted H cfg b0 anss -> valid_bytes H cfg st).
+Proof. exact run_stack_completed_streaming. Qed.
+Print Assumptions completed_streaming_run_is_the_specification.
+
+(** * Every consumption method.  If the buffer handed to WithErrorHandler and
+    every replacement buffer the handler supplies carry the object [C], then a
+    call / stream that completes ([completed]: nil for ToByteSlice, IntoWriter,
+    CloneCopy; nil or io.EOF for ReadAt; io.EOF for ToChunkReader and ToReader)
+    has handed the consumer exactly the expected slice of [C]
+    ([expected_slice]: C, C[off..] for ToChunkReader, C[off..off+len) for
+    ReadAt): each byte once and in order, or an error — for every buffer kind,
+    handler script, failure position, chunking, start offset, chunk size, read
+    sizes, digest, hash function and fuel. *)
+Theorem no_dup_no_skip_every_method : forall H cfg fuel C b0 answers m,
+  carries_full C b0 -> Forall (ans_carries C) answers -> m <> MDiscard ->
+  completed m (x_err (run_case H cfg fuel b0 answers m)) = true ->
+  x_data (run_case H cfg fuel b0 answers m) = expected_slice m C.
+Proof. exact run_case_no_dup_no_skip. Qed.
+Print Assumptions no_dup_no_skip_every_method.
+
+(** ... and for STACKS of error handlers of any depth ([run_stack]): the
+    original buffer and every replacement supplied by ANY level carry [C]
+    ([anss]: the handler scripts, innermost first).  (Buffer/EHFullStack.v: the
+    nested error-handling readers themselves satisfy the carrier law — the
+    reader in use carries C[off..] where [off] is the delivered offset all
+    active levels share, a replacement supplied by any level is opened at [off].) *)
+Theorem no_dup_no_skip_every_method_stack : forall H cfg fuel C b0 anss m,
+  carries_full C b0 -> Forall (Forall (ans_carries C)) anss -> m <> MDiscard ->
+  completed m (y_err (run_stack H cfg fuel b0 anss m)) = true ->
+  y_data (run_stack H cfg fuel b0 anss m) = expected_slice m C.
+Proof. exact run_stack_no_dup_no_skip. Qed.
+Print Assumptions no_dup_no_skip_every_method_stack.
+
+(** "... or an error": for the streaming methods (IntoWriter, ToChunkReader at
+    any offset and chunk size, ToReader with any read sizes) on a stack of at
+    least one handler, WHATEVER the outcome — completion, validation failure,
+    an error answer of the handlers, out of fuel — the bytes the consumer has
+    received are a prefix of the expected slice of [C]: nothing duplicated,
+    skipped or foreign is ever handed out.  (Buffer/EHFullPrefix.v: the
+    validating readers satisfy the carrier law too — they hand out what the
+    reader underneath handed out, possibly withholding the end, and say io.EOF
+    only when the reader underneath did.) *)
+Theorem delivered_is_prefix_every_streaming_method : forall H cfg fuel C b0 anss m,
+  carries_full C b0 -> Forall (Forall (ans_carries C)) anss -> anss <> [] -> streaming m ->
+  exists rest, expected_slice m C = y_data (run_stack H cfg fuel b0 anss m) ++ rest.
+Proof. exact run_stack_delivered_prefix. Qed.
+Print Assumptions delivered_is_prefix_every_streaming_method.
 
 (** The content is still validated across the stitched parts: the validated
     stream above the error-handling reader completes only if the stitched
@@ -188,6 +468,96 @@ Theorem stack_rule_clause_silent_on_model : forall inp,
 Proof. exact clause_10_silent_on_model. Qed.
 Print Assumptions stack_rule_clause_silent_on_model.
 
+(** Clause 1 (Done reported exactly once to the outermost handler) is silent
+    on the model as well, for every input with at least one handler (the
+    harness's domain); without a handler there is no Done count to look at and
+    the clause fires ([clause1_needs_a_handler], Buffer/EHFullMon.v).  Clauses
+    2-7 (the stitching / validity clauses, which compare the observation with
+    the specification functions [stitch_stack] / [buffer_in_use]) are checked on
+    every implementation run but not proved silent on the model: see
+    [content_carrier_insufficient_for_attaching_readers] for an input outside
+    the harness's domain on which 3, 4, 5 and 7 fire on the model itself. *)
+Theorem clause_1_silent_on_model : forall inp,
+  q_anss (dec_case16 inp) <> [] -> last (obs_dones (run16 inp)) 0%Z = 1%Z.
+Proof. exact EHFullMon.clause_1_silent_on_model. Qed.
+Print Assumptions clause_1_silent_on_model.
+
+(** Clause 3 (a streaming method completed => the stitched stream of the
+    specification is valid and the consumer holds exactly its expected slice)
+    is silent on the model for every input of the harness's domain on which the
+    model does not run out of fuel ([dom16], Buffer/EHFullMon3.v: at least one
+    handler; well-formed buffers, i.e. readers that attach EOF to data have
+    scripts of chunks and at most one final Eof; no fuel exhaustion offered to a
+    handler; a positive final error code). *)
+Theorem clause_3_silent_on_model_partial : forall inp, dom16 inp -> ~ In 3%Z (mon16 inp (run16 inp)).
+Proof. exact clause_3_silent_on_model. Qed.
+Print Assumptions clause_3_silent_on_model_partial.
+
+(** Every streaming run of a stack, however it ends, against the level-wise
+    specification [(st, term, offss) = stitch_stack (piece_of b0 0) anss]
+    (Buffer/EHFullTrace.v, EHFullRuns.v): every level's OnError arguments are a
+    prefix of its offers in the specification; and either the method rejected
+    its offset, or the validated stream [out] is a prefix of [st], the consumer
+    holds [out] from the method's offset, fewer than [size] bytes unless the
+    stream reached io.EOF, and the run ended with the specification's own final
+    error (all offers made), with a validation failure at the specification's
+    io.EOF, or with a validation failure because [st] is longer than the digest's
+    size. *)
+Theorem every_streaming_run_against_the_specification : forall H cfg fuel b0 anss m,
+  streaming m -> anss <> [] -> bad_param (g_size cfg) m = false ->
+  wf_case b0 anss ->
+  y_err (run_stack H cfg fuel b0 anss m) <> EFuel ->
+  no_fuel_offered (y_logs (run_stack H cfg fuel b0 anss m)) ->
+  let o := run_stack H cfg fuel b0 anss m in
+  let '(st, term, offss) := (let '(p0, t0) := piece_of b0 0 in stitch_stack p0 t0 anss) in
+  Forall2 lpre (map oell (y_logs o)) offss /\
+  ((y_err o = ECode 3 /\ y_data o = [] /\ term = EEof /\ map oell (y_logs o) = offss) \/
+   (exists out e rest,
+      e <> ENone /\ st = out ++ rest /\ y_data o = dropN (Z.to_N (m_off m)) out /\
+      y_err o = method_err m e /\ (e <> EEof -> out = [] \/ lenN out < g_size cfg) /\
+      ended_run cfg e st term (map oell (y_logs o)) offss)).
+Proof. exact run_stack_streaming_facts. Qed.
+Print Assumptions every_streaming_run_against_the_specification.
+
+(** THE MONITOR IS SILENT ON THE MODEL for every streaming method (IntoWriter,
+    ToChunkReader, ToReader): all clauses of [mon16] (1-5 and 7-10; clause 6
+    concerns the other methods) — [mon16 inp (run16 inp) = []] for every input
+    of [dom16s] (Buffer/EHFullMonS.v): at least one handler; well-formed buffers
+    (readers that attach EOF to data have scripts of chunks and at most one
+    final Eof event, as the harness generates them); an offset the method
+    accepts; the model did not run out of fuel (no EFuel as the result or offered
+    to a handler); a positive final error code.  So on the unchanged tree a
+    monitor alarm on a streaming case can only come from an implementation
+    observation that differs from the model's. *)
+Theorem monitor_silent_on_model_streaming_partial : forall inp, dom16s inp -> mon16 inp (run16 inp) = [].
+Proof. exact mon16_silent_on_model_streaming. Qed.
+Print Assumptions monitor_silent_on_model_streaming_partial.
+
+(** Whole-operation retries on a stack (ToByteSlice, ReadAt, CloneCopy through
+    nested tryRepeatedly), Buffer/EHFullRetry.v, EHFullMonR.v: if the call
+    completes, the buffer it completed on is the one [buffer_in_use] computes from
+    the scripts and the number of offers each level received ([biu]), its
+    content ends with io.EOF and is valid (byte slices: if trusted), and the
+    consumer holds its expected slice; and the error the outermost handler
+    returned last is the consumer's result. *)
+Theorem whole_operation_retries_on_a_stack : forall H cfg fuel b0 anss m,
+  retrying m -> anss <> [] -> y_err (run_stack H cfg fuel b0 anss m) <> EFuel ->
+  retry_facts H cfg b0 anss m (run_stack H cfg fuel b0 anss m).
+Proof. exact run_stack_retry_facts. Qed.
+Print Assumptions whole_operation_retries_on_a_stack.
+
+(** THE MONITOR IS SILENT ON THE MODEL, every method, every clause:
+    [mon16 inp (run16 inp) = []] for every input of [dom16all]
+    (Buffer/EHFullMonR.v): at least one handler; well-formed buffers (readers
+    that attach EOF to data have scripts of chunks and at most one final Eof
+    event); parameters the method accepts ([bad_param] = false); the model did
+    not run out of fuel (no EFuel as the result or offered to a handler); a
+    positive final error code.  The unconditional statement is false:
+    [clause1_needs_a_handler], [stitching_clauses_fire_outside_the_domain]. *)
+Theorem monitor_silent_on_model_partial : forall inp, dom16all inp -> mon16 inp (run16 inp) = [].
+Proof. exact mon16_silent_on_model. Qed.
+Print Assumptions monitor_silent_on_model_partial.
+
 (** Non-vacuity: the original fails after one byte, the replacement is opened
     at offset 1; the consumer gets 1,2,3 once each, validation succeeds, the
     error 14 is offered once and Done is reported once. *)
@@ -222,3 +592,124 @@ Example c16_stack_outer_repairs :
   = mkOut16s [1; 2; 3] ENone [] [true]
              [[HOnError (ECode 14); HDone]; [HOnError (ECode 7); HDone]] [1%nat; 1%nat] [].
 Proof. vm_compute. reflexivity. Qed.
+
+(** Non-vacuity of [no_dup_no_skip_every_method]: the object 1,2,3; the
+    original chunk-reader buffer fails after one byte; the first replacement is
+    a reader-backed buffer (EOF/errors attached to data) that is opened at offset
+    1 and fails again after one more byte (its first error 5 arrives together
+    with the byte 2 that completes an io.ReadFull and is dropped, the repeated
+    error is offered); the second replacement, a reader-backed
+    buffer with errors on their own calls, is opened at offset 2.  All carry the
+    object; the consumer reads with chunk size 1 from offset 1 and gets 2,3. *)
+Example c16_every_kind_carries :
+  let H := lookup [([1; 2; 3], [9; 9])] in
+  let cfg := mkVcfg [9; 9] 3 13 in
+  let C := [1; 2; 3] in
+  let b0 := BChunk [Chunk [1]; Err 14; Chunk [7]] in
+  let b1 := BReader [Chunk [1; 2]; Err 5; Err 5; Chunk [3]] true in
+  let b2 := BReader [Chunk [1]; Chunk [2; 3]; Eof; Chunk [9]] false in
+  carries_full C b0 /\ carries_full C b1 /\ carries_full C b2 /\
+  run_case H cfg 80 b0 [Replace b1; Replace b2] (MToChunkReader 1 1 0)
+  = mkOut16 [2; 3] EEof [] [true] [HOnError (ECode 14); HOnError (ECode 5); HDone] [].
+Proof.
+  vm_compute. split; [exists [2; 3]; split; [reflexivity|discriminate]|].
+  split; [exists [3]; split; [reflexivity|]; exists []; auto|].
+  split; [exists []; auto|reflexivity].
+Qed.
+
+(** Why readers that attach errors to data need the stronger notion [rcar]:
+    with "the chunks before the first non-chunk event are a prefix of C" alone
+    the statement is FALSE on the model.  The reader hands out 1,2 together with
+    error 14; io.ReadFull(2 bytes) inside the reader-backed chunk reader drops
+    that error, the handler is never asked, and the next read continues with the
+    7 that follows in the script: the stream completes with 1,2,7 (valid for a
+    digest of 1,2,7) although the buffer's [content] is the prefix 1,2 of 1,2,3.
+    (The harness excludes such scripts: a real reader repeats its error.) *)
+Example content_carrier_insufficient_for_attaching_readers :
+  let H := lookup [([1; 2; 7], [9; 9])] in
+  let cfg := mkVcfg [9; 9] 3 13 in
+  let evs := [Chunk [1; 2]; Err 14; Chunk [7]; Eof] in
+  ccar [1; 2; 3] evs /\ ~ rcar [1; 2; 3] evs /\
+  run_case H cfg 60 (BReader evs true) [] (MToChunkReader 0 2 0)
+  = mkOut16 [1; 2; 7] EEof [] [true] [HDone] [].
+Proof.
+  split; [exists [3]; split; [reflexivity|discriminate]|].
+  split; [|vm_compute; reflexivity].
+  cbn. intros (C' & E & C'' & E2 & _). injection E as <-. cbn in E2. discriminate E2.
+Qed.
+
+(** Non-vacuity for stacks: the inner handler gives up (error 7), the outer one
+    supplies a reader-backed replacement, opened at offset 1; all buffers carry
+    1,2,3; ToReader with read sizes 2,1,... delivers 1,2,3 once each. *)
+Example c16_stack_carries :
+  let H := lookup [([1; 2; 3], [9; 9])] in
+  let cfg := mkVcfg [9; 9] 3 13 in
+  let b1 := BReader [Chunk [1; 2; 3]] true in
+  carries_full [1; 2; 3] b1 /\
+  run_stack H cfg 60 (BChunk [Chunk [1]; Err 14; Chunk [7]]) [[Fail 7]; [Replace b1]] (MToReader [2; 1] 0)
+  = mkOut16s [1; 2; 3] EEof [] [true]
+             [[HOnError (ECode 14); HDone]; [HOnError (ECode 7); HDone]] [1%nat; 1%nat] [].
+Proof. vm_compute. split; [exists []; auto|reflexivity]. Qed.
+
+(** The same input in the monitor's encoding (digest of 1,2,7; the table holds
+    the hashes): the model completes with 1,2,7 without any OnError call and the
+    monitor's stitching clauses 3, 4, 5, 7 fire on the model's own observation.
+    The harness rejects this input (readers that attach a non-repeated error to
+    data are excluded, lib/props.d/C16.py). *)
+Example stitching_clauses_fire_outside_the_domain :
+  let inp := L [A 1; L [A 3; L [A 9; A 9]; A 3];
+                L [A 1; A 1; L [L [A 0; L [A 1; A 2]]; L [A 1; A 14]; L [A 0; L [A 7]]; L [A 2]]];
+                L [L []]; L [A 3; A 0; A 2; A 0]; L [L [L [A 1; A 2; A 7]; L [A 9; A 9]]]] in
+  run16 inp = L [L [A 1; A 2; A 7]; A (-1); L []; L [A 1]; L [L []]; L [A 1]; L []; L [A 1]] /\
+  mon16 inp (run16 inp) = [3; 4; 7; 5]%Z.
+Proof. vm_compute. auto. Qed.
+
+(** Non-vacuity of the prefix theorem on a failing run: both buffers carry
+    1,2,3,4 but the digest says 3 bytes: the validator stops the stream (code 13)
+    after 1,2 — a prefix of the object — and withholds the rest. *)
+Example c16_prefix_on_failure :
+  let H := lookup [([1; 2; 3], [9; 9])] in
+  let cfg := mkVcfg [9; 9] 3 13 in
+  run_stack H cfg 60 (BChunk [Chunk [1]; Err 14]) [[Replace (BReader [Chunk [1; 2]; Chunk [3; 4]; Eof] false)]]
+            (MToChunkReader 0 1 0)
+  = mkOut16s [1; 2] (ECode 13) [] [false] [[HOnError (ECode 14); HDone]] [1%nat; 1%nat] [].
+Proof. vm_compute. reflexivity. Qed.
+
+(** Non-vacuity of the closed form for stacks: three levels over a chunk-reader
+    buffer; the innermost gives up (7), the middle one replaces, its replacement
+    fails too, the middle one then gives up (8), the outermost replaces with a
+    byte slice: [stitch_stack] yields the stream 1,2,3 and, per level, the
+    errors it is offered. *)
+Example c16_stitch_stack_instance :
+  let b0 := BChunk [Chunk [1]; Err 14] in
+  let anss := [[Fail 7]; [Replace (BReader [Chunk [1; 2]; Err 15] false); Fail 8]; [Replace (BBytes [1; 2; 3])]] in
+  (let '(p, t) := piece_of b0 0 in stitch_stack p t anss)
+  = ([1; 2; 3], EEof, [[ECode 14]; [ECode 7; ECode 15]; [ECode 8]]) /\
+  let H := lookup [([1; 2; 3], [9; 9])] in
+  let cfg := mkVcfg [9; 9] 3 13 in
+  run_stack H cfg 80 b0 anss MIntoWriter
+  = mkOut16s [1; 2; 3] ENone [] [true]
+      [[HOnError (ECode 14); HDone]; [HOnError (ECode 7); HOnError (ECode 15); HDone]; [HOnError (ECode 8); HDone]]
+      [1%nat; 1%nat] [].
+Proof. vm_compute. auto. Qed.
+
+(** Non-vacuity of [monitor_silent_on_model_partial]: an input that meets
+    [dom16all] (two stacked handlers; the inner one gives up, the outer one
+    replaces; ToChunkReader at offset 1 in chunks of 1). *)
+Example dom16all_instance :
+  let inp := L [A 1; L [A 3; L [A 9; A 9]; A 3];
+                L [A 0; L [L [A 0; L [A 1]]; L [A 1; A 14]; L [A 0; L [A 7]]]];
+                L [L [L [A 1; A 7]]; L [L [A 0; L [A 1; A 0; L [L [A 0; L [A 1; A 2]]; L [A 0; L [A 3]]; L [A 2]]]]]];
+                L [A 3; A 1; A 1; A 0]; L [L [L [A 1; A 2; A 3]; L [A 9; A 9]]]] in
+  dom16all inp /\
+  run16 inp = L [L [A 2; A 3]; A (-1); L []; L [A 1]; L [L [A 14]; L [A 7]]; L [A 1; A 1]; L []; L [A 1; A 1]].
+Proof.
+  cbv zeta. split; [|vm_compute; reflexivity].
+  unfold dom16all, dom16. rsplit.
+  - vm_compute. discriminate.
+  - vm_compute. split; [exact I|]. repeat constructor.
+  - vm_compute. repeat constructor; intros Hin; repeat (destruct Hin as [Hin|Hin]; try discriminate); exact Hin.
+  - vm_compute. intros x Hx. discriminate.
+  - vm_compute. discriminate.
+  - vm_compute. reflexivity.
+Qed.
